@@ -367,6 +367,86 @@ fn run_http(c: &HttpCase, rec: &mut CaseRec) -> Result<(), String> {
     Ok(())
 }
 
+/// The CLI's retry wiring: `bita clone --http-retry-count B URL` against the scripted server. All chunk data of these
+/// archives is one run, so the resume model applies to the data requests as a whole.
+#[derive(Clone, Debug, Serialize, Deserialize)]
+pub struct CliCase {
+    pub seed: u32,
+    pub chunk: u16,
+    pub chunks: u8,
+    pub steps: Vec<Step>,
+    pub budget: u32,
+    pub pieces: Vec<u8>,
+}
+
+fn run_cli(c: &CliCase, rec: &mut CaseRec) -> Result<(), String> {
+    use crate::gen::*;
+    let n = c.chunk.max(1) as u32 * c.chunks.max(1) as u32;
+    let source = Arc::new(expand(&vec![Seg::Random { n, seed: c.seed }]));
+    let cfg = ArchCfg { chunker: ChunkerCfg { algo: Algo::FixedSize, bits: 0, min: 0, max: c.chunk.max(1) as usize, window: 0 }, hash_len: 64, comp: Comp::None, buffers: 2 };
+    let archive = crate::util::block_on(crate::l1::compress_lib(source.clone(), &cfg, ReadScript::full(), &Default::default()))?;
+    let h = crate::refs::format::decode_header(&archive).map_err(|e| format!("harness: {}", e))?;
+    let data_len = archive.len() - h.header_len;
+    if data_len == 0 {
+        rec.excluded = Some("no_chunk_data".into());
+        return Ok(());
+    }
+    // one run: [chunk data offset, end)
+    let ranges = vec![(h.chunk_data_offset, data_len)];
+    let m = model(&ranges, &c.steps, c.budget);
+    let mut rules = vec![];
+    for (i, st) in c.steps.iter().enumerate() {
+        let base = Action { pieces: c.pieces.iter().map(|p| *p as usize).collect(), ..Default::default() };
+        let a = match st {
+            Step::Ok => base,
+            Step::Drop => Action { drop: true, ..base },
+            Step::Cut(k) => Action { cut_after: Some(*k as usize), ..base },
+            Step::Short(k) => Action { body: Body::Short(*k as usize), ..base },
+        };
+        rules.push((When::NthData(i), a));
+    }
+    let srv = http::Server::start(Arc::new(archive.clone()), Script { rules, data_from: h.header_len as u64, max_requests: 200 });
+    let dir = crate::props::c01::worker_dir("C08");
+    crate::props::c01::clean_dir(&dir);
+    let args = vec!["--http-retry-count".to_string(), c.budget.to_string(), "--http-retry-delay".to_string(), "0".to_string()];
+    let (run, out) = crate::scen::clone_cli(&dir, &srv.url(), "o.out", &args, None, None, false, &[]);
+    let log: Vec<(u64, u64)> = srv.requests().iter().filter_map(|r| r.range).filter(|r| r.0 >= h.header_len as u64).collect();
+    let overrun = srv.overrun.load(std::sync::atomic::Ordering::SeqCst);
+    drop(srv);
+    crate::props::c01::clean_dir(&dir);
+    if run.timed_out || overrun {
+        return Err(format!("bita clone keeps re-requesting (more than 200 requests) or hangs: {}", run.describe()));
+    }
+    if log != m.requests {
+        let i = log.iter().zip(m.requests.iter()).position(|(a, b)| a != b).unwrap_or(log.len().min(m.requests.len()));
+        return Err(format!("requests (CLI, --http-retry-count {}): data request #{} is {:?} but the resume model expects {:?} ({} sent, {} expected; steps {:?})", c.budget, i, log.get(i), m.requests.get(i), log.len(), m.requests.len(), c.steps));
+    }
+    if m.fails {
+        if run.ok() {
+            return Err(format!("outcome (CLI): retries exhausted / body ended early but bita clone exited 0 (steps {:?}, budget {})", c.steps, c.budget));
+        }
+    } else {
+        if !run.ok() {
+            return Err(format!("outcome (CLI): every failure was within --http-retry-count {} but bita clone failed: {}", c.budget, run.describe()));
+        }
+        if out.as_deref() != Some(&source[..]) {
+            return Err("outcome (CLI): exit 0 but the output differs from the source".into());
+        }
+    }
+    rec.level = Some("L2");
+    rec.class("cli_http_retry");
+    rec.class_if(m.resumes > 0, "mid_body_cut_resumed");
+    rec.class_if(m.exhausted, "retry_budget_exhausted");
+    rec.class_if(m.clean_short, "clean_early_end");
+    rec.nontrivial = m.resumes > 0 || m.exhausted || m.clean_short;
+    Ok(())
+}
+
+fn cli_strategy() -> impl Strategy<Value = CliCase> {
+    (any::<u32>(), prop_oneof![1u16..=16, 16u16..=400], 1u8..=6, prop::collection::vec(step_strategy(), 0..6), 0u32..=3, prop_oneof![2 => Just(vec![]), 1 => prop::collection::vec(1u8..60, 1..3)])
+        .prop_map(|(seed, chunk, chunks, steps, budget, pieces)| CliCase { seed, chunk, chunks, steps, budget, pieces })
+}
+
 fn ranges_strategy(max: usize) -> impl Strategy<Value = Vec<RangeSpec>> {
     prop::collection::vec(
         (any::<u16>(), prop_oneof![3 => 1u16..=16, 2 => 1u16..=200, 1 => 1u16..=3000], prop_oneof![3 => Just(0u8), 4 => Just(1u8), 1 => Just(2u8)]).prop_map(|(start, len, rel)| RangeSpec { start, len, rel }),
@@ -471,11 +551,14 @@ impl Prop for C08 {
             cx.set_exhaustive("every_split_point_of_small_bodies_plain_and_chunked", splits);
         }
         cx.run_prop("http", t.pick(6_000, 120_000), http_strategy(), run_http);
+        cx.run_prop("cli", t.pick(1600, 30_000), cli_strategy(), run_cli);
+        let _ = std::fs::remove_dir_all(crate::props::c01::worker_dir("C08"));
     }
     fn replay(&self, _cx: &mut WorkerCtx, variant: &str, case: &Value) -> Result<(), String> {
         let mut rec = CaseRec::default();
         match variant {
             "splits" | "cuts" => run_http(&serde_json::from_value(case.clone()).map_err(|e| e.to_string())?, &mut rec),
+            "cli" => run_cli(&serde_json::from_value(case.clone()).map_err(|e| e.to_string())?, &mut rec),
             "local" => run_local(&serde_json::from_value(case.clone()).map_err(|e| e.to_string())?, &mut rec),
             _ => run_http(&serde_json::from_value(case.clone()).map_err(|e| e.to_string())?, &mut rec),
         }
